@@ -43,6 +43,11 @@ Theorem c08_caller_ctx : forallb caller_ctx_ok ctx_args = true /\ blocking_calle
 Proof. exact c08_caller_ctx_alternatives. Qed.
 Print Assumptions c08_caller_ctx.
 
+(* the bare sends into a requester's 1-slot channel are single: registration deleted before the send *)
+Theorem c08_single_send : single_send_ok waits = true.
+Proof. exact c08_single_send_channels. Qed.
+Print Assumptions c08_single_send.
+
 (* every blocking statement of the library is bounded by syntactic evidence or is one of the
    protocols below / a stated join; none is under a lock (the list of exceptions is empty) *)
 Theorem c08_every_wait_classified :
